@@ -162,30 +162,29 @@ func (tpl *Template) newContextForExecution(context Context) (*Template, *Execut
 	return parent, ctx, nil
 }
 
-// execute runs the template; depth tells how many templates are executing this one
-// through include/ssi (0 for a template executed by the caller), and from is the
-// context of the tag that does so (nil for the caller): the nested execution is part of
-// the same rendering.
-func (tpl *Template) execute(context Context, writer TemplateWriter, depth int, from *ExecutionContext) error {
-	if depth > maxTemplateDepth {
-		return &Error{
-			Filename:  tpl.name,
-			Sender:    "execution",
-			OrigError: fmt.Errorf("maximum template nesting depth reached (max is %d): templates including each other in a cycle?", maxTemplateDepth),
-		}
-	}
-
+// execute runs the template; from is the context of the tag that does so (include,
+// ssi; nil for the caller): the nested execution is part of the same rendering.
+func (tpl *Template) execute(context Context, writer TemplateWriter, from *ExecutionContext) error {
 	parent, ctx, err := tpl.newContextForExecution(context)
 	if err != nil {
 		return err
 	}
-	ctx.depth = depth
 	if from != nil {
 		// one rendering: cycle and ifchanged tags of an included template remember their
-		// previous execution (an include inside a loop), and the depth of macro calls
-		// counts on instead of starting anew in every included template
+		// previous execution (an include inside a loop), and the nesting of templates and
+		// of macro calls counts on instead of starting anew in every included template
 		ctx.nodeState = from.nodeState
-		ctx.macroDepth = from.macroDepth
+		ctx.nesting = from.nested()
+
+		ctx.nesting.templates++
+		defer func() { ctx.nesting.templates-- }()
+		if ctx.nesting.templates > maxTemplateDepth {
+			return &Error{
+				Filename:  tpl.name,
+				Sender:    "execution",
+				OrigError: fmt.Errorf("maximum template nesting depth reached (max is %d): templates including each other in a cycle?", maxTemplateDepth),
+			}
+		}
 	}
 
 	// Run the selected document
@@ -198,18 +197,18 @@ func (tpl *Template) execute(context Context, writer TemplateWriter, depth int, 
 
 func (tpl *Template) newTemplateWriterAndExecute(context Context, writer io.Writer) error {
 	tw := &templateWriter{w: writer}
-	if err := tpl.execute(context, tw, 0, nil); err != nil {
+	if err := tpl.execute(context, tw, nil); err != nil {
 		return err
 	}
 	// (the error of the caller's writer, if it failed)
 	return tw.err
 }
 
-func (tpl *Template) newBufferAndExecute(context Context, depth int, from *ExecutionContext) (*bytes.Buffer, error) {
+func (tpl *Template) newBufferAndExecute(context Context, from *ExecutionContext) (*bytes.Buffer, error) {
 	// Create output buffer
 	// We assume that the rendered template will be 30% larger
 	buffer := bytes.NewBuffer(make([]byte, 0, int(float64(tpl.size)*1.3)))
-	if err := tpl.execute(context, buffer, depth, from); err != nil {
+	if err := tpl.execute(context, buffer, from); err != nil {
 		return nil, err
 	}
 	return buffer, nil
@@ -219,13 +218,13 @@ func (tpl *Template) newBufferAndExecute(context Context, depth int, from *Execu
 // on success. Context can be nil. Nothing is written on error; instead the error
 // is being returned.
 func (tpl *Template) ExecuteWriter(context Context, writer io.Writer) error {
-	return tpl.executeWriterNested(context, writer, 0, nil)
+	return tpl.executeWriterNested(context, writer, nil)
 }
 
 // executeWriterNested is ExecuteWriter for a template that is executed by another one
-// (include) at the given nesting depth, from the given context of that template.
-func (tpl *Template) executeWriterNested(context Context, writer io.Writer, depth int, from *ExecutionContext) error {
-	buf, err := tpl.newBufferAndExecute(context, depth, from)
+// (include), from the given context of that template.
+func (tpl *Template) executeWriterNested(context Context, writer io.Writer, from *ExecutionContext) error {
+	buf, err := tpl.newBufferAndExecute(context, from)
 	if err != nil {
 		return err
 	}
@@ -248,7 +247,7 @@ func (tpl *Template) ExecuteWriterUnbuffered(context Context, writer io.Writer) 
 // Executes the template and returns the rendered template as a []byte
 func (tpl *Template) ExecuteBytes(context Context) ([]byte, error) {
 	// Execute template
-	buffer, err := tpl.newBufferAndExecute(context, 0, nil)
+	buffer, err := tpl.newBufferAndExecute(context, nil)
 	if err != nil {
 		return nil, err
 	}
@@ -258,7 +257,7 @@ func (tpl *Template) ExecuteBytes(context Context) ([]byte, error) {
 // Executes the template and returns the rendered template as a string
 func (tpl *Template) Execute(context Context) (string, error) {
 	// Execute template
-	buffer, err := tpl.newBufferAndExecute(context, 0, nil)
+	buffer, err := tpl.newBufferAndExecute(context, nil)
 	if err != nil {
 		return "", err
 	}
